@@ -5,7 +5,7 @@
    Executor part: for every well-formed plan and every oracle. *)
 From Coq Require Import List Arith Bool NArith.
 From Conductor Require Import Model.Loader Model.Planner Model.Exec Model.RunCase Proofs.Compose Proofs.ComposeRun
-  Proofs.ExecInv Proofs.ExecTheorems Proofs.ExecMain Proofs.PlannerInv Proofs.PlannerThm Proofs.PlannerExact.
+  Proofs.ExecInv Proofs.ExecTheorems Proofs.ExecMain Proofs.PlannerInv Proofs.PlannerThm Proofs.PlannerExact Proofs.PlannerOrder Proofs.PlanClosure.
 From Conductor Require Import Gen.Generated Proofs.GenTie.
 Import ListNotations.
 
@@ -32,6 +32,15 @@ Theorem C02_inside_closure :
   forall info sr again root t, Needed info sr again root t -> NReach info sr again root t.
 Proof. intros info sr again root t [H _]. exact H. Qed.
 Print Assumptions C02_inside_closure.
+
+(* ... in terms of plain dependency paths: whatever is planned for execution or reported as cached is the root or is
+   reachable from the root by a dependency path -- never a task outside T's transitive closure *)
+Theorem C02_nothing_outside_the_closure :
+  forall info sr again root, (forall t, NoDup (t_deps (info t))) ->
+  forall fuel ps, plan_for info sr again fuel root = Some ps ->
+  forall t, In t (map op_task (ops ps)) \/ In t (cached ps) -> t = root \/ TPath info root t.
+Proof. intros info sr again root H fuel ps. exact (planned_and_cached_inside_closure info sr root H again fuel ps). Qed.
+Print Assumptions C02_nothing_outside_the_closure.
 
 (* the planner's output satisfies what the executor theorems (C01, C03, C04, C09) assume *)
 Theorem C02_plan_wf :
